@@ -160,6 +160,9 @@ func (x iface) eq(t types.Type, _y interface{}) bool {
 }
 
 func (x iface) hash(outer types.Type) int {
+	if x.t == nil {
+		return 0 // a nil interface value is a legal map key
+	}
 	return hashType(x.t)*8581 + hash(outer, x.t, x.v)
 }
 
